@@ -215,6 +215,39 @@ CHECKS["C20"] = dict(
          "delegated to dali.command.from_frame with the expected context (C01/C03 judge decoding).",
     design="4/C20")
 
+CHECKS["C09"] = dict(
+    technique="model-based testing of the memory read sequences against frame-level IEC 62386-102/-103 memory models "
+              "(write-enable state, DTR0 auto-increment, lock/latch byte) with fault injection at every read index",
+    text="Every declared memory value (99 shipped + 8 declared by the check through the public mechanism with scattered "
+         "locations) and every bank object x gear / control-device / int addressing x images (random, FF, 00, ramp, "
+         "default) x last accessible location 0..254 x unimplemented holes x latch on/off x initial lock byte x drifting "
+         "live memory x silence/framing error at each read. Oracle: value = reference decode (harness/ref_memory.py) of the "
+         "bytes at the declared locations; MemoryLocationNotImplemented exactly when a location is missing; ResponseError "
+         "on a garbled read; read_all keys and values as the statement says, from the latched snapshot; memory unchanged "
+         "and bank not left latched afterwards. Complete over value x last-location and value x single-hole; sampled otherwise.",
+    note="Trusted: harness/model_gear.py MemBank + harness/model_devmem.py (102 9.10 semantics, shared by the repository's "
+         "own fakes), harness/ref_memory.py.",
+    design="4/C09")
+CHECKS["C10"] = dict(
+    technique="model-based testing of the memory write sequences with one injected fault of each kind at every step",
+    text="34 writable and 73 read-only value classes x data patterns (random, boundary, MASK/TMASK, numbers, strings, short "
+         "and wrong lengths) x initial lock byte x addressing x unit variants (standard, non-standard unlock value, shorter "
+         "bank, DTR0 not advancing) x fault (answer NO, wrong echo, framing error) at every write index and at the DTR0 check "
+         "x ignore_feedback. Oracle: refusal before any command for read-only values / wrong length; success means exactly "
+         "those bytes at exactly those locations, nothing else changed, lockable bank re-locked; any fault raises a "
+         "documented memory/response exception.",
+    note="Trusted: the same memory models and ref_memory.is_writable / needs_unlock.",
+    design="4/C10")
+CHECKS["C13"] = dict(
+    technique="model-based testing of the control-device sequences against a frame-level IEC 62386-103 device/instance "
+              "model; enumeration of small spaces, Hypothesis populations, fault at every query",
+    text="query_input_value for every (resolution 1..12, value) and boundary values to 32 bits with arbitrary filler bits; "
+         "event filters (library enums, generated 9..24-flag enums, ints) x flag combinations x stale DTR contents with "
+         "state and read-back oracles; schemes; autodiscover over populations of 0..64 devices with status bits, 0..32 "
+         "instances, enabled flags, types, address selectors, quiescent bracketing; silence/framing error at every query.",
+    note="Trusted: harness/model_device.py (opcodes cross-checked with harness/ref_tables.py).",
+    design="4/C13")
+
 NOT_BUILT_REASON = "check not built yet in this round (planned, see DESIGN.md section 4); not claimed until it is registered"
 
 
